@@ -2,6 +2,8 @@
 
 Streams
   versioned_dict   all operation sequences over VersionedDict (model correspondence + the invariant as an oracle)
+  registration     saver/loader registration interleaved with saves on throw-away classes: every save must use the newest version
+                   registered so far for the most specific class (the model recomputes the dispatch from the current registry)
   dispatch         saver_of / loader_of of the model (over the regenerated class table) against GlueSerializer._dispatch /
                    GlueUnSerializer._dispatch for every class of the table; registry properties evaluated on the live registries
   patches          resolve of the model against lookup_class_with_patches; termination, importable targets, live capture
@@ -370,6 +372,206 @@ def stream_dispatch(R, T):
 
 def c02_qn(c):
     return '%s.%s' % (c.__module__, c.__qualname__)
+
+
+# ====================================================================================== stream 2b: registration interleaved with saving
+class _RegBase(object):
+    pass
+
+
+RegA = RegB = RegC = None      # rebound to fresh classes for every case, so that _type 'harness.c12.RegB' resolves to the current one
+
+
+def reg_fresh_classes():
+    g = globals()
+    A = type('RegA', (object,), {'__module__': __name__})
+    B = type('RegB', (A,), {'__module__': __name__})
+    C = type('RegC', (B,), {'__module__': __name__})
+    g['RegA'], g['RegB'], g['RegC'] = A, B, C
+    return [A, B, C]
+
+
+def reg_run_case(S, ops):
+    """ops: ('reg', ci, v) registers saver+loader version v for class ci; ('save', ci) saves an object of class ci and loads it back.
+    Returns (per-op results, model ops, oracle failure or None).  Always removes what it registered."""
+    classes = reg_fresh_classes()
+    registered = {}                  # class index -> {version: op number}, successful registrations only
+    polluted = set()                 # classes with an entry but possibly no version (a failed registration creates the entry)
+    res, mops = [], []
+    bad = None
+    try:
+        for k, o in enumerate(ops):
+            if o[0] == 'reg':
+                _, ci, v = o
+                cls = classes[ci]
+
+                def sv(obj, context, k=k):
+                    return {'fn': k}
+
+                def ld(rec, context, k=k):
+                    r = S.lookup_class_with_patches(rec['_type'])()       # as the loaders of Component / CompositeSubsetState do
+                    r.loaded_by = k
+                    r.fn = rec['fn']
+                    return r
+                mops.append((0, [ci, opt(v), k]))
+                try:
+                    S.saver(cls, version=v)(sv)
+                    polluted.add(ci)
+                    res.append(('reg', 'none'))
+                except KeyError:
+                    polluted.add(ci)
+                    res.append(('reg', KEYERR))
+                    continue
+                except ValueError:
+                    res.append(('reg', VALERR))
+                    continue
+                mops.append((1, [ci, opt(v), k]))
+                try:
+                    S.loader(cls, version=v)(ld)
+                    res.append(('reg', 'none'))
+                    registered.setdefault(ci, {})[v] = k
+                except KeyError:
+                    res.append(('reg', KEYERR))
+            else:
+                _, ci = o
+                cls = classes[ci]
+                mops.append((2, [ci]))
+                # what the property demands, from the registrations made so far
+                expect = None
+                blocked = False
+                for cj in range(ci, -1, -1):
+                    if registered.get(cj):
+                        vmax = max(registered[cj])
+                        expect = (cj, vmax, registered[cj][vmax])
+                        break
+                    if cj in polluted:
+                        blocked = True      # an entry without versions: dispatch[typ] raises (loudly) before any fallback
+                        break
+                try:
+                    rec = S.GlueSerializer(cls()).dumpo()['__main__']
+                    used = ('used', rec['fn'], rec.get('_protocol', 1))
+                except S.GlueSerializeError:
+                    rec, used = None, ('err', 5)
+                except ValueError:
+                    rec, used = None, ('err', VALERR)
+                res.append(('save',) + used)
+                if bad is None and not blocked:
+                    if expect is None and used[0] == 'used':
+                        bad = 'op %d: an object of a class without any saver was written by saver #%d' % (k, used[1])
+                    elif expect is not None and used != ('used', expect[2], expect[1]):
+                        bad = ('op %d: save of %s should use the newest version %d registered for %s (function #%d), the record was written by %s'
+                               % (k, cls.__name__, expect[1], classes[expect[0]].__name__, expect[2],
+                                  'function #%d as protocol %d' % (used[1], used[2]) if used[0] == 'used' else 'nothing (%r)' % (used,)))
+                if rec is not None:
+                    v = rec.get('_protocol', 1)
+                    mops.append((3, [ci, v]))
+                    try:
+                        back = S.GlueUnSerializer.loads(json.dumps(rec and {'__main__': rec})).object('__main__')
+                        lres = ('load', 'used', getattr(back, 'loaded_by', None), v)
+                        ok = type(back) is cls and getattr(back, 'fn', None) == rec['fn']
+                        if bad is None and expect is not None and not blocked and (not ok or back.loaded_by != expect[2]):
+                            bad = 'op %d: the record written for %s was not restored by the loader registered with its saver' % (k, cls.__name__)
+                    except Exception as e:
+                        lres = ('load', 'err', type(e).__name__)
+                        if bad is None and expect is not None and not blocked:
+                            bad = 'op %d: the record written for %s fails to load: %s: %s' % (k, cls.__name__, type(e).__name__, e)
+                    res.append(lres)
+    finally:
+        for reg in (S.GlueSerializer.dispatch._data, S.GlueUnSerializer.dispatch._data):
+            for key in list(reg):
+                if isinstance(key, type) and key.__module__ == __name__ and key.__name__ in ('RegA', 'RegB', 'RegC'):
+                    del reg[key]
+    return res, mops, bad
+
+
+def reg_model_parse(o):
+    out = []
+    for r in kids(o):
+        if is_err(r):
+            out.append(('err', err_code(r)))
+        elif tag(r) == 0:
+            x = kids(r)[0]
+            out.append(('reg', err_code(x) if is_err(x) else 'none'))
+        else:
+            t, v, x = to_zs(r)
+            out.append(('used', t, v, x))
+    return out
+
+
+def reg_shrink(S, ops):
+    ops = list(ops)
+    changed = True
+    while changed:
+        changed = False
+        for i in range(len(ops)):
+            cand = ops[:i] + ops[i + 1:]
+            if reg_run_case(S, cand)[2]:
+                ops = cand
+                changed = True
+                break
+    return ops
+
+
+def stream_registration(R):
+    """saver / loader registration interleaved with saves, on throw-away classes RegA <- RegB <- RegC"""
+    from glue.core import state as S
+    L = R.pick(5, 6)
+    alphabet = [('reg', 0, 1), ('reg', 0, 2), ('reg', 1, 1), ('reg', 1, 2), ('save', 0), ('save', 1), ('save', 2)]
+    seqs = []
+    for n in range(1, L + 1):
+        seqs.extend(itertools.product(alphabet, repeat=n))
+    seqs = [s for s in seqs if any(o[0] == 'save' for o in s)]
+    rng = R.subrng('registration')
+    big = [('reg', c, v) for c in (0, 1, 2) for v in (1, 2, 3)] + [('save', c) for c in (0, 1, 2)] * 2
+    for _ in range(R.pick(2000, 20000)):
+        seqs.append(tuple(rng.choice(big) for _ in range(rng.randrange(6, 12))))
+    before = (len(S.GlueSerializer.dispatch._data), len(S.GlueUnSerializer.dispatch._data))
+    lines, impl = [], []
+    nfail = 0
+    for ops in seqs:
+        res, mops, bad = reg_run_case(S, ops)
+        impl.append(res)
+        lines.append(enc((20, [(0, [(0, [0]), (1, [1, 0]), (2, [2, 1, 0])]), (0, mops)])))
+        nsave = sum(1 for r in res if r[0] == 'save' and r[1] == 'used')
+        R.count(('registration', ops), nontrivial=nsave > 0, stream='registration', registration_len=len(ops))
+        if bad and nfail < 6:
+            nfail += 1
+            small = reg_shrink(S, ops)
+            R.fail('oracle', {'stream': 'registration', 'ops': [list(o) for o in small], 'classes': 'RegA <- RegB <- RegC (index 0, 1, 2)'},
+                   {'why': reg_run_case(S, small)[2]})
+    outs = R.model(lines)
+    ncorr = 0
+    for ops, res, o in zip(seqs, impl, outs):
+        model = reg_model_parse(o)
+        # bring the implementation's results into the model's vocabulary: (class, version, function) for saves and loads
+        conv = []
+        for r in res:
+            if r[0] == 'reg':
+                conv.append(('reg', r[1]))
+            elif r[0] == 'save':
+                conv.append(('used?', r[3], r[2]) if r[1] == 'used' else ('err', r[2]))
+            else:
+                conv.append(('used?', r[3], r[2]) if r[1] == 'used' else ('loaderr',))
+        same = len(conv) == len(model)
+        if same:
+            for c, m in zip(conv, model):
+                if c[0] == 'used?':
+                    same = same and m[0] == 'used' and (m[2], m[3]) == (c[1], c[2])
+                elif c[0] == 'loaderr':
+                    same = same and m[0] == 'err'
+                else:
+                    same = same and c == m
+        if not same and ncorr < 6:
+            ncorr += 1
+            R.fail('correspondence', {'stream': 'registration', 'ops': [list(o) for o in ops]}, {'impl': res, 'model': model})
+    after = (len(S.GlueSerializer.dispatch._data), len(S.GlueUnSerializer.dispatch._data))
+    if after != before:
+        R.fail('correspondence', {'stream': 'registration'}, {'why': 'the stream left entries in the global registries', 'before': before, 'after': after})
+    R.sample({'stream': 'registration', 'ops': [['reg', 0, 1], ['save', 1], ['reg', 1, 1], ['save', 1], ['reg', 0, 2], ['save', 0]]})
+    R.stream('registration', cases=len(seqs), exhaustive=True,
+             bound='all sequences of 1..%d operations over {register saver+loader v1/v2 for RegA or its subclass RegB, save+load an object of RegA / RegB / RegC(RegB)} '
+                   'that contain a save; %d random sequences of 6-11 operations with versions 1..3 on all three classes; fresh classes per case, registries cleaned after each'
+                   % (L, R.pick(2000, 20000)))
 
 
 # ====================================================================================== stream 3: rename table
@@ -812,7 +1014,7 @@ def run(R):
         if sizes != mine:
             R.fail('correspondence', {'stream': 'tables'}, {'why': 'the tables compiled into the model differ from the tables of the running package', 'model': sizes, 'now': mine})
             return
-    for fn, args in ((stream_versioned_dict, (R, VersionedDict)), (stream_dispatch, (R, T)), (stream_patches, (R, T)), (stream_protocol, (R, T))):
+    for fn, args in ((stream_versioned_dict, (R, VersionedDict)), (stream_registration, (R,)), (stream_dispatch, (R, T)), (stream_patches, (R, T)), (stream_protocol, (R, T))):
         try:
             fn(*args)
         except Exception:                 # keep going: another stream may still find the failing input
@@ -830,6 +1032,10 @@ def replay(R, case):
         out.update(impl_results=res, impl_state=state, oracle=bad, violates=bool(bad))
         if R.model_available:
             out['model'] = vd_model_parse(R.model([vd_enc(ops)])[0])
+    elif st == 'registration':
+        ops = [tuple(o) for o in case['ops']]
+        res, mops, bad = reg_run_case(S, ops)
+        out.update(results=res, oracle=bad, violates=bool(bad))
     elif st == 'patches':
         patches = dict(S.PATH_PATCHES)
         if 'cycle' in case:
